@@ -377,6 +377,7 @@ func init() {
 		MinNontrivial: 500,
 		Streams: []Stream{
 			{Name: "repeat", N: func(c *Ctx) int { return c15Cases(c) * c.NBatch }, Run: c15Run},
+			{Name: "twin-texts", N: func(c *Ctx) int { return twinN() }, Run: twinRun, Exhaustive: true},
 		},
 	})
 	batchOverride["C15"] = func(tier, mode string) int {
